@@ -1839,3 +1839,31 @@ for _cell, _deg in [("triangle", 3), ("triangle", 5), ("tetrahedron", 2), ("inte
             return _qe_form(cell, deg, var)
 
         reg(f"quadrature_element_deg{_deg}_{_var}_{_cell}", "c01 c11 c11md c08" + (" q" if _cell in ("triangle", "tetrahedron") and _var == "weighted" else ""))(_mk)
+
+
+# ---- complex mode: vector/tensor-valued inner() with complex data in its second operand, no explicit conj ----
+
+def _cplx_inner(variant):
+    m = mesh("triangle")
+    V = space(m)
+    W = space(m, shape=(2,))
+    u, v = TrialFunction(V), TestFunction(V)
+    U, Vv = TrialFunction(W), TestFunction(W)
+    K = ufl.Coefficient(space(m, "DG", 0, shape=(2, 2)))
+    G = ufl.Coefficient(W)
+    if variant == "grad_K_grad":
+        return inner(grad(u), dot(K, grad(v))) * dx
+    if variant == "U_K_V":
+        return inner(U, dot(K, Vv)) * dx
+    if variant == "gradU_outer":
+        return inner(grad(U), ufl.outer(G, Vv)) * dx
+    if variant == "linear_K":
+        return inner(G, dot(K, Vv)) * dx + inner(grad(G), ufl.outer(G, Vv)) * ds
+    raise ValueError(variant)
+
+
+for _var in ["grad_K_grad", "U_K_V", "gradU_outer", "linear_K"]:
+    def _mk(var=_var):
+        return _cplx_inner(var)
+
+    reg(f"cplx_inner_{_var}", "c09 q", scalar="complex128", itypes=("cell", "exterior_facet"))(_mk)
